@@ -37,4 +37,10 @@ CHECKS = {
     text="SampledKLEnergy (samples, value, gradient, metric, sample_stat, average, moved expansion point) and full optimize_kl runs for the product n_samples{0..3} x mirror x constants x point estimates x geoVI with 2..4 (thorough 6) tasks incl. tasks without samples: every rank's result is bit-identical to comm=None with the same seed. All schedules with <=1 (thorough <=2) deviations from the default under rendezvous and buffered sends for the smallest configuration; C23 decides the confluence of the message pattern exhaustively.",
     note="libmpi cannot be loaded here: simulated communicator, real transport not exercised; sanity_checks=False (the check insists on a real mpi4py communicator).",
     ref="DESIGN.md section 3 (C22)"),
+ "C27": dict(
+    engine="case-runner", level="exploration",
+    technique="exhaustive configuration enumeration: verified pairwise covering array plus all single-factor deviations (quick), full option product (thorough), each run on the real driver with an options-derived oracle",
+    text="16 option factors of ift.optimize_kl (output directory, sanity checks, save strategy, plotting, constants, point estimates, n_samples 0/2/schedule, transitions, inspect callback arity, terminate callback, fresh stochasticity bool/callable, dry run, return_final_position, resume of a finished run, operator export, geoVI): every enumerated combination must complete, return the type and sample count the options imply, keep constant keys, write the files of its save strategy, call callbacks with the right indices and leave nifty.cl.random's stack depth and top generator unchanged. Four genuine defects repaired.",
+    note="comm=None; tiny model, 3 iterations; quick = pairwise coverage (verified) not the full product.",
+    ref="DESIGN.md section 6 (C27)"),
 }
